@@ -531,18 +531,23 @@ func init() {
 		Title: "Statement control flow is executed exactly as in Go",
 		Explanation: "Decided: S1 every one of the ~3 800 statement closures of package fast returns Code[IP] of the environment it returns after exactly one advance of IP (or Code[t] after IP = t) on every path — an IP that is not advanced, or a statement taken from another frame than the one returned, is the generic control-flow bug; " +
 			"J1 in jumpOut and every other depth-specialised jump the frame whose IP is set and whose code is indexed is the one the arm names; J2 break/continue/goto stop at the enclosing function, count the frames to leave after each level and pass the count to jumpOut (D3: the compiler-chain walk advances one link per iteration); " +
-			"J3 every late-bound jump target (jump.Cond/Post/Break/..., LoopInfo.Break/Continue) is assigned a code position on every path to the end of its compile function; J4 Comp.Stmt has a case for every statement node of go/ast; U sibling uniformity of the kind-specialised switch / range / select closures (including the arms that are alone in their category, compared modulo storage class); A3 a statement closure that walks Outer links in a counted loop up to the frame of a variable (the count derived from the variable's Upn) accesses that variable's slot on the frame it reached, never on the current one (found F32 in rangeString); G1 the places a for-range statement assigns to (returned by rangeVars) are only tested and assigned with SetPlace(p, ASSIGN, ...), never read, updated in place or re-bound to the loop's own counter, and each assignment is emitted after jump.Start and after an exit test (a statement that can jump to jump.Break) on every path, a direct store being in the continuing branch of that test (found F29, F33). " +
+			"J3 every late-bound jump target (jump.Cond/Post/Break/..., LoopInfo.Break/Continue) is assigned a code position on every path to the end of its compile function; J4 Comp.Stmt has a case for every statement node of go/ast; U sibling uniformity of the kind-specialised switch / range / select closures (including the arms that are alone in their category, compared modulo storage class); A3 a statement closure that walks Outer links in a counted loop up to the frame of a variable (the count derived from the variable's Upn) accesses that variable's slot on the frame it reached, never on the current one (found F32 in rangeString); G1 the places a for-range statement assigns to (returned by rangeVars) are only tested and assigned with SetPlace(p, ASSIGN, ...), never read, updated in place or re-bound to the loop's own counter, and each assignment is emitted after jump.Start and after an exit test (a statement that can jump to jump.Break) on every path, a direct store being in the continuing branch of that test (found F29, F33); G2 each iteration of a range over a string decodes the first rune of s[offset:] with utf8.DecodeRuneInString and advances the offset by the width it returned; J2 also: the scope of the function body itself is searched for a break / goto target before the search stops (found F31; a continue target always has a scope of its own, clause continue-owner); J5 HasLabel's bisection is a membership test (slice[i] == key) and every ThisLabels slice was sorted before it was installed; S2 the closed-channel flag of a select receive is the recvOK result of reflect.Select kept in a slot of its own and read by both two-valued receive forms (found F30); S3 each select clause compiler ends with the jump to the select's Break target in the same frame. " +
 			"Not decided: the sequence of executed statements as such (switch dispatch optimisations, fallthrough, range and select semantics).",
 		Assumptions: []string{"the executor runs the statement returned by the previous one (C13 rules)"},
 		Rules: []func(*Ctx){func(c *Ctx) {
 			ruleStmtProtocol(c, "fast", nil, "S1-stmt-protocol")
 			ruleJumpDepth(c, "J1-jump-depth")
 			ruleBranchBoundaries(c, "J2-branch-boundaries")
+			ruleContinueOwner(c, "J2-continue-owner")
 			ruleChainStride(c, []string{"fast"}, "D3-stride")
 			ruleLateBoundTargets(c, "J3-late-bound-targets")
 			ruleStmtCoverage(c, "fast.Comp.Stmt", "Stmt", "J4-stmt-coverage")
 			ruleDepthLoops(c, "fast", nil, "A3-depth-loop")
 			ruleRangePlaces(c, "G1-range-places")
+			ruleSelectRecvOK(c, "S2-select-recvok")
+			ruleSelectClauseExit(c, "S3-select-clause-exit")
+			ruleLabelMembership(c, "J5-labels")
+			ruleRangeStringDecode(c, "G2-range-string-decode")
 			c.Floor("G1-range-places", 8)
 			ruleUniformity(c, "fast", []string{"switch.go", "switch2.go", "switch_type.go", "range.go", "range_map.go", "select.go", "statement.go"}, "U-uniform")
 			c.Floor("S1-stmt-protocol", 2300)
@@ -551,7 +556,15 @@ func init() {
 		Mutants: []Mutant{
 			{Name: "jumpout-depth1-stays-in-frame", File: "fast/statement.go", Old: "\t\tstmt = func(env *Env) (Stmt, *Env) {\n\t\t\tenv = env.Outer\n\t\t\tip := *ip\n", New: "\t\tstmt = func(env *Env) (Stmt, *Env) {\n\t\t\tip := *ip\n", Canary: true},
 			{Name: "for-break-target-unset", File: "fast/statement.go", Old: "\tjump.Break = c.Code.Len()\n\n\tc = c.popEnvIfLocalBinds(initLocals, &initBinds, node.Init)\n}\n\n// Go compiles", New: "\n\tc = c.popEnvIfLocalBinds(initLocals, &initBinds, node.Init)\n}\n\n// Go compiles", Canary: true},
-			{Name: "break-crosses-function", File: "fast/statement.go", Old: "\tfor o := c; o != nil && o.Func == nil; o = o.Outer {\n\t\tif o.Loop != nil && o.Loop.Break != nil {", New: "\tfor o := c; o != nil; o = o.Outer {\n\t\tif o.Loop != nil && o.Loop.Break != nil {"},
+			{Name: "break-crosses-function", File: "fast/statement.go", Old: "\t\tif o.Func != nil {\n\t\t\t// do not cross function boundaries: the function body itself was the last scope to search\n\t\t\tbreak\n\t\t}\n", New: "", Nth: 1},
+			{Name: "goto-skips-function-scope", File: "fast/statement.go", Old: "\tfor o := c; o != nil; o = o.Outer {\n\t\tif ip := o.Labels[label]; ip != nil {", New: "\tfor o := c; o != nil && o.Func == nil; o = o.Outer {\n\t\tif ip := o.Labels[label]; ip != nil {"},
+			{Name: "break-counts-function-frame", File: "fast/statement.go", Old: "\t\tif o.Func != nil {\n\t\t\t// do not cross function boundaries: the function body itself was the last scope to search\n\t\t\tbreak\n\t\t}\n\t\tupn += o.UpCost // count how many Env:s we must exit at runtime\n", New: "\t\tupn += o.UpCost // count how many Env:s we must exit at runtime\n\t\tif o.Func != nil {\n\t\t\tbreak\n\t\t}\n", Nth: 1},
+			{Name: "select-ok-from-received-value", File: "fast/select.go", Old: "\t\t\t\tidx := bindok.Desc.Index()\n\t\t\t\tc.SetPlace(", New: "\t\t\t\tidx := bind.Desc.Index()\n\t\t\t\tc.SetPlace("},
+			{Name: "haslabel-without-equality", File: "fast/global.go", Old: "return i >= 0 && i < len(l.ThisLabels) && l.ThisLabels[i] == label", New: "return i >= 0 && i < len(l.ThisLabels)"},
+			{Name: "select-labels-unsorted", File: "fast/select.go", Old: "\tsort.Strings(labels)\n", New: "\tsort.Sort(sort.Reverse(sort.StringSlice(labels)))\n"},
+			{Name: "select-default-falls-into-next-clause", File: "fast/select.go", Old: "\t\tc.List(node.Body)\n\t}\n\tc.jumpOut(0, c.Loop.Break)\n", New: "\t\tc.List(node.Body)\n\t}\n"},
+			{Name: "range-string-decodes-last-rune", File: "fast/range.go", Old: "_, size := utf8.DecodeRuneInString(s[next:])", New: "_, size := utf8.DecodeLastRuneInString(s[next:])"},
+			{Name: "select-recvok-discarded", File: "fast/select.go", Old: "\t\tchosen, recv, recvok := xr.Select(cases)\n", New: "\t\tchosen, recv, _ := xr.Select(cases)\n\t\trecvok := recv.IsValid()\n"},
 			{Name: "continue-upcost-before-check", File: "fast/statement.go", Old: "\tfor o := c; o != nil && o.Func == nil; o = o.Outer {\n\t\tif o.Loop != nil && o.Loop.Continue != nil {", New: "\tfor o := c; o != nil && o.Func == nil; o = o.Outer {\n\t\tupn += o.UpCost\n\t\tif o.Loop != nil && o.Loop.Continue != nil {"},
 			{Name: "range-string-rune-stored-in-current-frame", File: "fast/range.go", Old: "*(*int32)(unsafe.Pointer(&o.Ints[idxval])) = r", New: "*(*int32)(unsafe.Pointer(&env.Ints[idxval])) = r"},
 			{Name: "range-slice-user-key-incremented", File: "fast/range.go", Old: "c.SetPlace(placeidx, token.ADD_ASSIGN, one)", New: "c.SetPlace(placekey, token.ADD_ASSIGN, one)"},
